@@ -6,7 +6,9 @@
    the destination is read back by the real store and decoded by the byte-level reader. *)
 From Coq Require Import List NArith Bool.
 From Feox Require Import Gen.Constants Model.Bytes Model.Codec Model.MetaJournal Model.FreeSpace Model.Recovery
-                         Model.Migration Proofs.MigrationProofs.
+                         Model.Migration Proofs.MigrationProofs
+                         Proofs.ScanAcceptsProofs Proofs.ScanQuiescentProofs Proofs.ScanGenerationsProofs
+                         Proofs.ScanExpiryProofs Proofs.ScanLegacyProofs.
 Import ListNotations.
 Local Open Scope N_scope.
 
@@ -39,7 +41,12 @@ Theorem migration_faithful :
     rep_version r = o_version o /\
     map mr_key (rep_records r) = map e_key (o_idx o) /\
     map mr_ts (rep_records r) = map e_ts (o_idx o) /\
-    map mr_exp (rep_records r) = map e_exp (o_idx o).
+    map mr_exp (rep_records r) = map e_exp (o_idx o)
+
+(* ---- at the byte level: a legacy file at rest.  Any version-1/2 file whose selected metadata copy
+   decodes, whose journal is clear and whose data area is records with pairwise distinct keys (all
+   recoverable by version 3) and free blocks in any order: the read-only open of the source reports
+   exactly those records, in key order ... ---- *).
 Proof. exact migrate_spec_ok. Qed.
 Check migration_faithful :
   forall src allow dst_exists r,
@@ -49,5 +56,111 @@ Check migration_faithful :
     rep_version r = o_version o /\
     map mr_key (rep_records r) = map e_key (o_idx o) /\
     map mr_ts (rep_records r) = map e_ts (o_idx o) /\
-    map mr_exp (rep_records r) = map e_exp (o_idx o).
+    map mr_exp (rep_records r) = map e_exp (o_idx o)
+
+(* ---- at the byte level: a legacy file at rest.  Any version-1/2 file whose selected metadata copy
+   decodes, whose journal is clear and whose data area is records with pairwise distinct keys (all
+   recoverable by version 3) and free blocks in any order: the read-only open of the source reports
+   exactly those records, in key order ... ---- *).
 Print Assumptions migration_faithful.
+
+Theorem read_only_open_of_a_legacy_file_at_rest :
+  forall allow img m jgen jslot its,
+  (17 <= length img)%nat ->
+  let total := N.of_nat (length img) in
+  let mb := if select_meta (nth_block img 0) (nth_block img (N.to_nat FEOX_METADATA_BACKUP_BLOCK))
+            then nth_block img (N.to_nat FEOX_METADATA_BACKUP_BLOCK) else nth_block img 0 in
+  list_eqb (firstn 8 mb) SIGNATURE = true -> decode_meta mb = Some m ->
+  decode_journal (slot_bytes img 0) (slot_bytes img 1) total = Some (jgen, jslot, []) ->
+  total * FEOX_BLOCK_SIZE < U64 ->
+  Forall (plain_ok (m_version m)) its -> distinct_keys (recs_of its) ->
+  skipn (N.to_nat FEOX_DATA_START_BLOCK) img = ilayout (m_version m) FEOX_DATA_START_BLOCK its ->
+  exists o,
+    open_image (ro_cfg allow) img = (Ok o, img) /\
+    o_version o = m_version m /\ o_ambiguous o = 0 /\ isorted (o_idx o) /\
+    (forall e, In e (o_idx o) <-> In e (entries_of (m_version m) FEOX_DATA_START_BLOCK its))
+
+(* ... and the migration succeeds and must put into the destination exactly one record per record of
+   the source -- the same key, the value bytes the source holds (read through the source's own record
+   format), the same timestamp and (version 2) the same absolute expiry -- and nothing else *).
+Proof. exact ScanLegacyProofs.read_only_open_of_a_file_without_markers. Qed.
+Check read_only_open_of_a_legacy_file_at_rest :
+  forall allow img m jgen jslot its,
+  (17 <= length img)%nat ->
+  let total := N.of_nat (length img) in
+  let mb := if select_meta (nth_block img 0) (nth_block img (N.to_nat FEOX_METADATA_BACKUP_BLOCK))
+            then nth_block img (N.to_nat FEOX_METADATA_BACKUP_BLOCK) else nth_block img 0 in
+  list_eqb (firstn 8 mb) SIGNATURE = true -> decode_meta mb = Some m ->
+  decode_journal (slot_bytes img 0) (slot_bytes img 1) total = Some (jgen, jslot, []) ->
+  total * FEOX_BLOCK_SIZE < U64 ->
+  Forall (plain_ok (m_version m)) its -> distinct_keys (recs_of its) ->
+  skipn (N.to_nat FEOX_DATA_START_BLOCK) img = ilayout (m_version m) FEOX_DATA_START_BLOCK its ->
+  exists o,
+    open_image (ro_cfg allow) img = (Ok o, img) /\
+    o_version o = m_version m /\ o_ambiguous o = 0 /\ isorted (o_idx o) /\
+    (forall e, In e (o_idx o) <-> In e (entries_of (m_version m) FEOX_DATA_START_BLOCK its))
+
+(* ... and the migration succeeds and must put into the destination exactly one record per record of
+   the source -- the same key, the value bytes the source holds (read through the source's own record
+   format), the same timestamp and (version 2) the same absolute expiry -- and nothing else *).
+Print Assumptions read_only_open_of_a_legacy_file_at_rest.
+
+Theorem migration_of_a_legacy_file_at_rest :
+  forall allow src m jgen jslot its,
+  (17 <= length src)%nat ->
+  let total := N.of_nat (length src) in
+  let mb := if select_meta (nth_block src 0) (nth_block src (N.to_nat FEOX_METADATA_BACKUP_BLOCK))
+            then nth_block src (N.to_nat FEOX_METADATA_BACKUP_BLOCK) else nth_block src 0 in
+  list_eqb (firstn 8 mb) SIGNATURE = true -> decode_meta mb = Some m -> m_version m < 3 ->
+  decode_journal (slot_bytes src 0) (slot_bytes src 1) total = Some (jgen, jslot, []) ->
+  total * FEOX_BLOCK_SIZE < U64 ->
+  Forall (plain_ok (m_version m)) its -> distinct_keys (recs_of its) ->
+  (forall r, In r (recs_of its) -> N.of_nat (length (r_key r)) <= MAX_RECOVERABLE_KEY_SIZE) ->
+  skipn (N.to_nat FEOX_DATA_START_BLOCK) src = ilayout (m_version m) FEOX_DATA_START_BLOCK its ->
+  exists rep,
+    migrate_spec src allow false = inl rep /\
+    rep_version rep = m_version m /\ rep_ambiguous rep = 0 /\
+    (forall x, In x (rep_records rep) <-> exists r, In r (recs_of its) /\ x = mrec_of (m_version m) r) /\
+    ksorted (map mr_key (rep_records rep)).
+Proof. exact ScanLegacyProofs.migration_reports_exactly_the_records_of_the_source. Qed.
+Check migration_of_a_legacy_file_at_rest :
+  forall allow src m jgen jslot its,
+  (17 <= length src)%nat ->
+  let total := N.of_nat (length src) in
+  let mb := if select_meta (nth_block src 0) (nth_block src (N.to_nat FEOX_METADATA_BACKUP_BLOCK))
+            then nth_block src (N.to_nat FEOX_METADATA_BACKUP_BLOCK) else nth_block src 0 in
+  list_eqb (firstn 8 mb) SIGNATURE = true -> decode_meta mb = Some m -> m_version m < 3 ->
+  decode_journal (slot_bytes src 0) (slot_bytes src 1) total = Some (jgen, jslot, []) ->
+  total * FEOX_BLOCK_SIZE < U64 ->
+  Forall (plain_ok (m_version m)) its -> distinct_keys (recs_of its) ->
+  (forall r, In r (recs_of its) -> N.of_nat (length (r_key r)) <= MAX_RECOVERABLE_KEY_SIZE) ->
+  skipn (N.to_nat FEOX_DATA_START_BLOCK) src = ilayout (m_version m) FEOX_DATA_START_BLOCK its ->
+  exists rep,
+    migrate_spec src allow false = inl rep /\
+    rep_version rep = m_version m /\ rep_ambiguous rep = 0 /\
+    (forall x, In x (rep_records rep) <-> exists r, In r (recs_of its) /\ x = mrec_of (m_version m) r) /\
+    ksorted (map mr_key (rep_records rep)).
+Print Assumptions migration_of_a_legacy_file_at_rest.
+(* non-vacuity: a concrete version-2 file (two records around a free block) meets every premise,
+   and its migration report is the two records in key order *)
+Example a_legacy_file_meets_the_premises :
+  let src := ex_src in let m := ex_meta in let its := ex_its in
+  let total := N.of_nat (length src) in
+  let mb := if select_meta (nth_block src 0) (nth_block src (N.to_nat FEOX_METADATA_BACKUP_BLOCK))
+            then nth_block src (N.to_nat FEOX_METADATA_BACKUP_BLOCK) else nth_block src 0 in
+  (17 <= length src)%nat /\
+  list_eqb (firstn 8 mb) SIGNATURE = true /\ decode_meta mb = Some m /\ m_version m < 3 /\
+  decode_journal (slot_bytes src 0) (slot_bytes src 1) total = Some (0, 1, []) /\
+  total * FEOX_BLOCK_SIZE < U64 /\
+  Forall (plain_ok (m_version m)) its /\ distinct_keys (recs_of its) /\
+  (forall r, In r (recs_of its) -> N.of_nat (length (r_key r)) <= MAX_RECOVERABLE_KEY_SIZE) /\
+  skipn (N.to_nat FEOX_DATA_START_BLOCK) src = ilayout (m_version m) FEOX_DATA_START_BLOCK its.
+Proof. exact ScanLegacyProofs.a_legacy_file_meets_the_premises. Qed.
+
+Example a_legacy_file_migrates :
+  match migrate_spec ex_src false false with
+  | inl rep => rep_version rep = 2 /\
+               rep_records rep = [mkmrec [107; 48] (Some [9]) 6 0; mkmrec [107; 49] (Some [1; 2; 3]) 5 77]
+  | inr _ => False
+  end.
+Proof. vm_compute. split; reflexivity. Qed.
